@@ -1,2 +1,8 @@
 pub mod dewey;
+pub mod digest;
+pub mod distinfo;
+pub mod misc;
 pub mod pattern;
+pub mod plist;
+pub mod scan;
+pub mod summary;
